@@ -4,6 +4,7 @@ turn an undecided obligation into a discharged one)."""
 from __future__ import annotations
 
 import os
+from fractions import Fraction
 import random
 import subprocess
 import tempfile
@@ -117,7 +118,7 @@ def _pyval(v):
     if z3.is_int_value(v):
         return v.as_long()
     if z3.is_rational_value(v):
-        return float(v.as_fraction())
+        return v.as_fraction()
     if z3.is_algebraic_value(v):
         return float(v.approx(20).as_fraction())
     raise ValueError(str(v))
@@ -175,7 +176,7 @@ def discharge(hyp, goal, timeout_s=10.0, model_vars=None, use_cvc5=True, seed=0)
                         t = v.t if hasattr(v, "t") else v
                         try:
                             x = ev0.ev(t)
-                            vals[k] = x if not callable(x) else "<array>"
+                            vals[k] = (float(x) if isinstance(x, Fraction) else x) if not callable(x) else "<array>"
                         except Exception:
                             vals[k] = None
                     res["model"] = vals
@@ -235,7 +236,7 @@ def discharge(hyp, goal, timeout_s=10.0, model_vars=None, use_cvc5=True, seed=0)
                         t = v.t if hasattr(v, "t") else v
                         try:
                             x = cm["ev"].ev(t)
-                            vals[k] = x if not callable(x) else "<array>"
+                            vals[k] = (float(x) if isinstance(x, Fraction) else x) if not callable(x) else "<array>"
                         except Exception as e:  # pragma: no cover
                             vals[k] = None
                     res["model"] = vals
